@@ -93,6 +93,34 @@ CHECKS = {
          "ok/failing writes), with the isolated expectation of each event as direct oracle."),
    note=TB + "The C++ exception mapping of the same record is checked under C17.",
    technique='history-independence theorems in Lean 4 (incl. parser-loop invariants) + exhaustive-to-bound history correspondence', ref='§5 C09'),
+ 'C10': dict(
+   text=("Partial. Proved (21 theorems about the include mechanism, for every scan state, world and include function): C10_depth_limit "
+         "(with the documented literal 10 and its bridge to the translated MAX_INCLUDE_DEPTH; \"include file nesting too deep\" at the "
+         "current file/line), C10_push, C10_missing_first (\"cannot open include file\", frame popped, file = the including file, line = "
+         "the directive's line), C10_fn_error, C10_empty_list, C10_order / C10_next_file / C10_pop (files of a frame in list order, "
+         "frames LIFO), C10_missing_later (the exact statement of the recorded finding), C10_lineno_per_buffer, C10_directive_line, "
+         "C10_paths(_relative/_absolute/_no_dir), C10_provenance_step, C10_current_file. The splice equivalence (read with includes = "
+         "read of the spliced text) is kept as the visible statement C10_spliceStatement and decided by the direct oracle: for include "
+         "forests cut at line boundaries (fan-out, depth 0..12, > 32 files, empty files, no trailing newline, files ending inside a "
+         "group/list/string/comment, names with quotes/backslashes/spaces, with/without include dir, absolute paths, default and custom "
+         "multi-path include functions) read_file(top) and read_string(spliced text) give the same tree up to line/file; every named "
+         "setting reports the generator's recorded (file, line); chains of 0..12 succeed iff <= 10; cycles, missing targets and "
+         "include-function errors give the documented error triple."),
+   note=TB + "Known finding C10:missing-non-first-file-location (reproduced and printed). The end-to-end splice equivalence is not a theorem.",
+   technique='mechanism theorems over the include-stack model in Lean 4 + spliced-text / provenance / depth direct oracles on generated include forests', ref='§5 C10'),
+ 'C11': dict(
+   text=("Proved: C11_balanced — for every world, configuration, source, fuel and EVERY outcome (accept, syntax/semantic abort, include "
+         "error, stack exhaustion, ...), in the event list of the read every file the library opened has been closed and every buffer "
+         "created for an included file deleted (ledger invariant: open paths = current files of the frames on the include stack, buffer "
+         "balance = stack depth; carried through yylex and the parser loop; readCore's unwinding closes the rest); "
+         "C11_caller_stream_untouched; C11_names_live / C11_setting_names_live (the error file and every setting's file name are owned "
+         "by the configuration's file-name vector, also for the partial tree of a failed read); C11_names_released_by_clear. Runtime "
+         "part: for generated include forests a fault (delete, directory, syntax error, duplicate, mismatched element, include function "
+         "error / empty / NULL) is injected at every file and line position (quick: a seeded half), through config_read_file, "
+         "config_read_string and config_read on a stream the harness then examines and closes; after each: open-descriptor delta 0, "
+         "__lsan_do_recoverable_leak_check 0, error file as expected, dump of all file names under ASan."),
+   note=TB + "Partial: leaks inside generated flex/bison code and libc are observed by LeakSanitizer, not proved; the model's event list has two documented deviations that the harness cannot observe (a spurious fclose event for an unopenable later file; fopen+fclose of a directory is one failed fopen event).",
+   technique='resource-ledger invariant proved in Lean 4 for every failure point + fault injection at every file/line with fd and LSan oracles', ref='§5 C11'),
  'C12': dict(
    text=("For every configuration and every outcome of the I/O steps (an arbitrary oracle): C12_iff (success is reported exactly when open, "
          "every write incl. the flush, the requested fsync and the close succeeded), C12_success_complete (then the file holds exactly "
@@ -151,6 +179,22 @@ CHECKS = {
          "ASan/LSan, which is what observes the copy/lifetime part of the property on the real code."),
    note=TB + "String-handle lifetime (strings handed out stay valid until changed) is observed by ASan on the implementation, not modelled.",
    technique='conservation law (multiset of live hooks) proved in Lean 4 by induction, including the parser loop; differential correspondence on destructor logs', ref='§5 C16'),
+ 'C17': dict(
+   text=("Cpp.lean defines every C++ operation as its own precondition checks followed by the corresponding C model function, so "
+         "agreement with the C API is structural; 54 theorems: every cast to every supported C++ type equals the C getter mapped through "
+         "the exception table with the exact range rules (C17_cast_*), every exception of a Setting member carries getPath() of that "
+         "setting plus the documented suffix and each member throws only what its documented table lists (C17_exception_table, "
+         "C17_exception_path), getPath = __constructPath resolves back (via C06_getPath), lookupValue/exists never throw and leave the "
+         "output untouched exactly when the lookup or conversion fails (C17_*_lookupValue*, C17_never_throws), iteration visits children "
+         "0..n-1 in order (C17_iterate), reads/writes throw exactly when the C call fails with the C error record (C17_handleError, "
+         "C17_read, C17_writeFile, via C09), wrappers are freed with their settings (C17_wrapper_count, via C16 conservation), "
+         "add/remove/assign map C failures to the documented exceptions. The C++ harness performs every call through the public C++ API "
+         "and then the corresponding C call on the same objects; a Python re-derivation of the documented table is the direct oracle; "
+         "45 op kinds, boundary pools (INT_MIN/MAX+-1, 2^31, 2^32, 2^63, binary32 edges, NULL strings), malformed stream, auto-convert "
+         "off/on, sentinel-initialised outputs, wrapper leak/dangling counters under ASan/LSan, and every k-th library allocation failed "
+         "in a C++ scenario (must surface as std::bad_alloc)."),
+   note=TB + "Known finding C17:getFormat-after-setDefaultFormat (cached _type/_format; the generator stays away from the stale situations, one dedicated case reproduces it). Three defects repaired (two crashes; silent out-of-range long long assignment). An allocation failure inside std::stringstream while building an exception path is swallowed by the stream (truncated path instead of bad_alloc): recorded as an evidence note.",
+   technique='C++ layer modelled by delegation to the proved C model; exception-table theorems in Lean 4 + call-for-call differential harness', ref='§5 C17'),
  'C18': dict(
    text=("C18_equiv: for every byte string over the full alphabet, every start condition and both BOL states, the matcher compiled into "
          "scanner.c (tables re-translated on every run) selects exactly the rule and length that the documented token definitions select "
@@ -172,7 +216,7 @@ CHECKS = {
    technique='structural-induction theorems about the writer model in Lean 4 + byte-exact differential correspondence', ref='§5 C19'),
 }
 
-READY = ['C01', 'C02', 'C04', 'C05', 'C06', 'C07', 'C08', 'C09', 'C12', 'C13', 'C14', 'C15', 'C16', 'C18', 'C19', 'C20']
+READY = ['C01', 'C02', 'C04', 'C05', 'C06', 'C07', 'C08', 'C09', 'C10', 'C11', 'C12', 'C13', 'C14', 'C15', 'C16', 'C17', 'C18', 'C19', 'C20']
 NOT_YET = "check under construction in this round (model part exists, no registered check yet); see DESIGN.md §9"
 
 def main():
